@@ -290,4 +290,253 @@ theorem NoLeak_queueIdle (cfg : Cfg) (s : St) (w : Want) (k : Key) (he : Excl s)
       · exact Or.inr (Or.inl hp)
       · exact Or.inr (Or.inr hp)
 
+/-! the step lemma -/
+
+theorem Placed_of_holds_eq {s s' : St} (hi : s'.idle = s.idle) (ht : s'.transit = s.transit)
+    (hw : ∀ w d, (s'.wst w).holds d = (s.wst w).holds d) (c : Conn) (h : Placed s c) : Placed s' c := by
+  rcases h with h | h | ⟨w, hw'⟩
+  · exact Or.inl (by rw [hi]; exact h)
+  · exact Or.inr (Or.inl (by rw [ht]; exact h))
+  · exact Or.inr (Or.inr ⟨w, by rw [hw]; exact hw'⟩)
+
+theorem LruCore_frame {s s' : St} (hi : s'.idle = s.idle) (hl : s'.lru = s.lru) (hc : s'.closed = s.closed)
+    (hd : s'.dupPanic = s.dupPanic) (hk : s'.ckey = s.ckey) (h : LruCore s) : LruCore s' :=
+  ⟨by rw [hl]; exact h.lruNodup, by rw [hi, hl]; exact h.idleInLru,
+   by rw [hl, hi, hc]; exact h.lruIdleOrClosed, by rw [hd]; exact h.noDup,
+   by rw [hc, hk]; exact h.closedCreated⟩
+
+theorem queueDial_closed (cfg : Cfg) (s : St) (w : Want) (k : Key) : (queueDial cfg s w k).closed = s.closed := by
+  unfold queueDial startDial
+  (repeat' split) <;> rfl
+
+/-- After `c` was taken out of `transit`, everything else is still placed. -/
+theorem NoLeakExcept_transit_erase (s : St) (c : Conn) (he : Excl s) (h : NoLeak s) :
+    NoLeakExcept { s with transit := s.transit.erase c } c := by
+  intro x hx hl
+  rcases h x hl with hp | hp | hp
+  · exact Or.inl hp
+  · exact Or.inr (Or.inl ((List.Nodup.mem_erase_iff he.transitNodup).mpr ⟨hx, hp⟩))
+  · exact Or.inr (Or.inr hp)
+
+/-- After the owner `w` of `c` lets go, everything else is still placed. -/
+theorem NoLeakExcept_release (s : St) (w : Want) (c : Conn) (v : WSt)
+    (hc : ∀ d, (s.wst w).holds d = true → d = c) (h : NoLeak s) :
+    NoLeakExcept { s with wst := upd s.wst w v } c := by
+  intro x hx hl
+  rcases h x hl with hp | hp | ⟨w', hw'⟩
+  · exact Or.inl hp
+  · exact Or.inr (Or.inl hp)
+  · refine Or.inr (Or.inr ⟨w', ?_⟩)
+    have hne : w' ≠ w := by intro e; subst e; exact hx (hc x hw')
+    simp only [upd, hne, if_false]; exact hw'
+
+/-- `c` put into `transit`. -/
+theorem NoLeak_toTransit (s : St) (c : Conn) (h : NoLeakExcept s c) : NoLeak { s with transit := c :: s.transit } := by
+  intro x hl
+  by_cases hx : x = c
+  · subst hx; exact Or.inr (Or.inl List.mem_cons_self)
+  · rcases h x hx hl with hp | hp | hp
+    · exact Or.inl hp
+    · exact Or.inr (Or.inl (List.mem_cons_of_mem _ hp))
+    · exact Or.inr (Or.inr hp)
+
+theorem NoLeak_put_or_transit (cfg : Cfg) (s : St) (c : Conn) (k : Key) (hf : Free s c)
+    (hk : s.ckey c = some k) (he : Excl s) (hl : LruCore s) (h : NoLeakExcept s c) :
+    NoLeak (if (tryPut cfg s c k).2 = .ok then (tryPut cfg s c k).1
+            else { (tryPut cfg s c k).1 with transit := c :: (tryPut cfg s c k).1.transit }) := by
+  obtain ⟨h1, h2⟩ := NoLeak_tryPut cfg s c k hf hk he hl h
+  split
+  · next e => exact h1 e
+  · next e => exact NoLeak_toTransit _ c (h2 e)
+
+theorem NoLeak_step (cfg : Cfg) (s : St) (op : Op) (he : Excl s) (hl : LruCore s) (h : NoLeak s) :
+    NoLeak (step cfg s op).1 := by
+  cases op with
+  | newWant w k =>
+    simp only [step]; split
+    · exact h
+    · exact NoLeak_of_frame (s := s) rfl rfl rfl rfl rfl h
+  | queueIdle w => simp only [step]; split; exact h; exact NoLeak_queueIdle cfg s w _ he h
+  | queueDial w =>
+    simp only [step]; split; exact h
+    split; exact h
+    next k _ _ =>
+    obtain ⟨a, b, c, d, _⟩ := queueDial_frame cfg s w k
+    exact NoLeak_of_frame a b c d (queueDial_closed cfg s w k) h
+  | dialBegin w =>
+    simp only [step]; split; exact h
+    split; exact h
+    split; exact h
+    exact NoLeak_decConns cfg _ _ (NoLeak_of_frame (s := s) rfl rfl rfl rfl rfl h)
+  | dialOk w c =>
+    simp only [step]; split
+    · next k hwk hck =>
+      split; exact h
+      -- every other connection keeps its place; `c` is delivered or goes into transit
+      have others : ∀ (s' : St), (∀ x, x ≠ c → s'.ckey x = s.ckey x) → (∀ x, x ≠ c → s'.closed x = s.closed x) →
+          (∀ x, Placed s x → Placed s' x) → Placed s' c → NoLeak s' := by
+        intro s' hk' hc' hp hpc x hlx
+        by_cases hx : x = c
+        · subst hx; exact hpc
+        · exact hp x (h x ⟨by rw [← hk' x hx]; exact hlx.1, by rw [← hc' x hx]; exact hlx.2⟩)
+      split
+      · next hwait =>
+        apply others
+        · intro x hx; simp [upd, hx]
+        · intro x hx; simp [upd, hx]
+        · intro x hp
+          exact Placed_upd_nonholder
+            { s with ckey := upd s.ckey c (some k), closed := upd s.closed c false,
+                     conns := c :: s.conns, dialing := s.dialing.erase w } w (.gotConn c)
+            (by intro d; simp only; rw [hwait]; rfl) x hp
+        · exact Or.inr (Or.inr ⟨w, by simp [upd, WSt.holds]⟩)
+      · apply others
+        · intro x hx; simp [upd, hx]
+        · intro x hx; simp [upd, hx]
+        · intro x hp
+          rcases hp with hp | hp | hp
+          · exact Or.inl hp
+          · exact Or.inr (Or.inl (List.mem_cons_of_mem _ hp))
+          · exact Or.inr (Or.inr hp)
+        · exact Or.inr (Or.inl List.mem_cons_self)
+    · exact h
+  | dialFail w =>
+    simp only [step]; split; exact h
+    split; exact h
+    simp only
+    split
+    · next hwait =>
+      apply NoLeak_decConns
+      intro x hlx
+      exact Placed_upd_nonholder { s with dialing := s.dialing.erase w } w .gotErr
+        (by intro d; simp only; rw [hwait]; rfl) x (h x hlx)
+    · apply NoLeak_decConns
+      exact NoLeak_of_frame (s := s) rfl rfl rfl rfl rfl h
+  | dialEnd w =>
+    simp only [step]; split
+    · exact h
+    · exact NoLeak_of_frame (s := s) rfl rfl rfl rfl rfl h
+  | recv w =>
+    simp only [step]; split
+    · next c hst =>
+      intro x hlx
+      apply Placed_of_holds_eq (s := s) _ _ _ x (h x hlx)
+      · rfl
+      · rfl
+      intro w' d
+      simp only [upd]
+      split
+      · next e => subst e; rw [hst]; rfl
+      · rfl
+    · next hst =>
+      intro x hlx
+      apply Placed_of_holds_eq (s := s) _ _ _ x (h x hlx)
+      · rfl
+      · rfl
+      intro w' d
+      simp only [upd]
+      split
+      · next e => subst e; rw [hst]; rfl
+      · rfl
+    · exact h
+  | cancel w =>
+    simp only [step]; split; exact h
+    split
+    · next hst =>
+      intro x hlx
+      apply Placed_of_holds_eq (s := s) _ _ _ x (h x hlx)
+      · rfl
+      · rfl
+      intro w' d
+      simp only [upd]
+      split
+      · next e => subst e; rw [hst]; rfl
+      · rfl
+    · next c hst =>
+      have h1 := NoLeakExcept_release s w c .canceled
+        (by intro d hd; rw [hst] at hd; exact ((holds_gotConn c d).mp hd).symm) h
+      exact NoLeak_toTransit _ c h1
+    · next hst =>
+      intro x hlx
+      apply Placed_of_holds_eq (s := s) _ _ _ x (h x hlx)
+      · rfl
+      · rfl
+      intro w' d
+      simp only [upd]
+      split
+      · next e => subst e; rw [hst]; rfl
+      · rfl
+    · exact h
+  | putT c =>
+    simp only [step]; split; exact h
+    split; exact h
+    next k hk hmem =>
+    have hmem' : c ∈ s.transit := by simpa using hmem
+    obtain ⟨h1, h2⟩ := NoLeak_tryPut cfg _ c k (Free_after_transit_erase s c hmem' he) hk
+      (Excl_transit_erase s c he) (LruCore_frame (s := s) rfl rfl rfl rfl rfl hl)
+      (NoLeakExcept_transit_erase s c he h)
+    split
+    · next e => exact h1 e
+    · next e => exact NoLeak_toTransit _ c (h2 e)
+  | closeT c =>
+    simp only [step]; split; exact h
+    exact NoLeak_closeConn cfg _ c (NoLeakExcept_transit_erase s c he h)
+  | finishPut w =>
+    simp only [step]; split
+    · next c hst =>
+      split; exact h
+      next k hk =>
+      have hholds : (s.wst w).holds c = true := by rw [hst]; exact (holds_inUse c c).mpr rfl
+      obtain ⟨h1, h2⟩ := NoLeak_tryPut cfg _ c k
+        (Free_after_release s w c .finished (fun d => holds_finished d) hholds he) hk
+        (Excl_release s w .finished (fun d => holds_finished d) he)
+        (LruCore_frame (s := s) rfl rfl rfl rfl rfl hl)
+        (NoLeakExcept_release s w c .finished
+          (by intro d hd; rw [hst] at hd; exact ((holds_inUse c d).mp hd).symm) h)
+      split
+      · next e => exact h1 e
+      · next e => exact NoLeak_toTransit _ c (h2 e)
+    · exact h
+  | finishClose w =>
+    simp only [step]; split
+    · next c hst =>
+      exact NoLeak_closeConn cfg _ c (NoLeakExcept_release s w c .finished
+        (by intro d hd; rw [hst] at hd; exact ((holds_inUse c d).mp hd).symm) h)
+    · exact h
+  | serverCloseIdle c =>
+    simp only [step]; split; exact h
+    split
+    · exact NoLeak_closeConn cfg s c (h.except c)
+    · exact h
+  | removeIdle c =>
+    simp only [step]; split; exact h
+    split
+    · next hcl =>
+      apply NoLeak_of_except (NoLeakExcept_removeIdleLocked s c he (h.except c))
+      intro hlx
+      have := hlx.2
+      simp only [removeIdleLocked_closed] at this
+      rw [hcl] at this; cases this
+    · exact h
+  | idleTimeout c =>
+    simp only [step]; split; exact h
+    exact NoLeak_closeConn cfg _ c (NoLeakExcept_removeIdleLocked s c he (h.except c))
+  | closeIdleConnections =>
+    simp only [step]
+    intro x hlx
+    rcases h x hlx with ⟨k, hk⟩ | hp | hp
+    · exact Or.inr (Or.inl (List.mem_append.mpr (Or.inl ((listedIdle_mem s x he).mpr ⟨k, hk⟩))))
+    · exact Or.inr (Or.inl (List.mem_append.mpr (Or.inr hp)))
+    · exact Or.inr (Or.inr hp)
+
+theorem NoLeak_init : NoLeak {} := by
+  intro c hl; exact absurd rfl hl.1
+
+theorem NoLeak_run (cfg : Cfg) (s : St) (ops : List Op) (he : Excl s) (hl : LruAll cfg s) (h : NoLeak s) :
+    NoLeak (run cfg s ops) := by
+  induction ops generalizing s with
+  | nil => exact h
+  | cons op ops ih =>
+    exact ih _ (Excl_step cfg s op he) (LruAll_step cfg s op he hl) (NoLeak_step cfg s op he hl.1 h)
+
 end Req.Lemmas.C09PoolLeak
